@@ -1,5 +1,5 @@
 From Coq Require Import ZArith List Bool Arith.
-From PV Require Import Base.U64 E3.E3_Run C05.C05_Asym C05.C05_AsymProofs C05.C05_Model C05.C05_Proofs C05.C05_Proofs2 C05.C05_Proofs3 C05.C05_Proofs4 C05.C05_Pool C05.C05_PoolProofs.
+From PV Require Import Base.U64 E3.E3_Run C05.C05_Asym C05.C05_AsymProofs C05.C05_AsymTSO C05.C05_Model C05.C05_Proofs C05.C05_Proofs2 C05.C05_Proofs3 C05.C05_Proofs4 C05.C05_Pool C05.C05_PoolProofs.
 Import ListNotations.
 
 (* ---- asymmetric_spinLock (the run-queue lock) ------------------------------------------------- *)
@@ -18,6 +18,14 @@ Theorem asym_mutex_TSO_refuted :
                in_cs (t_pcs s 0) = true /\ in_cs (t_pcs s 1) = true /\ (0 <> 1)%nat /\ length ls = 5%nat.
 Proof. exact asym_mutex_TSO_refuted_proof. Qed.
 Print Assumptions asym_mutex_TSO_refuted.
+
+(* with the full fence of the proposed repair (store; fence; loads) the lock IS mutually exclusive under x86-TSO:
+   every number of stealers, every script length, every schedule of instruction and store-buffer-flush steps *)
+Theorem asym_mutex_TSO_fenced : forall rf rb ls s p q,
+  tso_run true (tso_init rf rb) ls = Some s ->
+  in_cs (t_pcs s p) = true -> in_cs (t_pcs s q) = true -> p = q.
+Proof. exact asym_mutex_TSO_fenced_proof. Qed.
+Print Assumptions asym_mutex_TSO_fenced.
 
 (* ---- life-cycle / placement: every program, every number of vCPUs and threads, every schedule ---- *)
 Theorem placement_unique : forall progs nv n flags t0 s, (nv <= n)%nat -> reachable progs nv n flags t0 s ->
